@@ -93,10 +93,11 @@ extern int mpt_logfile_set(MPT_STRUCT(logfile) *log, const char *name, MPT_INTER
 			log->ignore = MPT_LOG(Info);
 			return 0;
 		}
-		if ((ret = src->_vptr->convert(src, 'y', &val)) >= 0) {
-			log->ignore = val;
+		if ((ret = src->_vptr->convert(src, 'y', &val)) < 0) {
+			return ret;
 		}
-		return MPT_ERROR(BadValue);
+		log->ignore = ret ? val : MPT_LOG(Info);
+		return 0;
 	}
 	if (!strcasecmp(name, "level")) {
 		const char *ign = 0;
